@@ -8,7 +8,7 @@ from lib.runner import Stage, Violation, hyp_drive
 
 RULE = ("(list of cells with repeats in any order, target t): resolutions -1..29, t in 0..29, total expansion <= 4^7; a class of contiguous runs (slices of a cell's descendants starting anywhere, with gaps); a "
         "further class has one element (first/middle/last) finer than t and must raise. Oracle: output = concatenation in "
-        "input order of blocks of refids.nchildren(res,t) ids, each block the reference descendants (ascending for res>=1), "
+        "input order of blocks of refids.nchildren(res,t) ids, each block a permutation of the reference descendants, "
         "all of res t, each mapping back through cell_to_parent; length = sum of get_num_children; argument unchanged. "
         "Non-trivial = >=2 input cells of different resolutions and output longer than input (or the error class); "
         "distinct by (cells, t).")
@@ -50,10 +50,9 @@ def judge(case, col):
         n = refids.nchildren(r, t)
         block = out[off:off + n]
         ref = refids.children(c, t)
-        if r >= 1:
-            if block != ref:
-                raise Violation("block_mismatch", case, observed=[hex(x) for x in block[:4]], expected=[hex(x) for x in ref[:4]], note=f"cell {hex(c)} at offset {off}")
-        elif sorted(block) != sorted(ref):
+        # the statement fixes which cells make up a block and where the block sits, not the order inside it
+        # (the ascending order of cell_to_children is C06's clause)
+        if sorted(block) != sorted(ref):
             raise Violation("block_set_mismatch", case, observed=[hex(x) for x in block[:4]], expected="reference descendants", note=f"cell {hex(c)} at offset {off}")
         for k in (block if n <= 256 else block[::max(1, n // 128)]):
             if a5.get_resolution(k) != t:
